@@ -37,15 +37,18 @@ def problems(obj_portf, spec, g, prices):
 def run_case(rng, tier, case):
     import eaopack.serialization as ser
     from eaopack.portfolio import Portfolio
-    base = gen.gen_mixed_portfolio(rng, grid_kw={'steps': (4, 16)}, n_assets=(2, 5), n_nodes=(1, 3))
+    base = gen.gen_mixed_portfolio(rng, kinds=[k for k in gen.ALL_KINDS if k != 'linked'], grid_kw={'steps': (4, 16)}, n_assets=(2, 5), n_nodes=(1, 3))      # (LinkedAsset: added below, known finding F7d)
     spec = variant_forms(rng, add_dicts(rng, base))
     g = spec['grid']; f = gen.UNIT_F[g['unit']]
-    if rng.random() < 0.15:
+    if rng.random() < 0.08:
         la, hm = linked_spec(rng, g, f, 'n0', sorted(spec['prices'])[0])
         spec['assets'] += [la, hm]
     for a in spec['assets']:
         if a['type'] == 'OrderBook' and rng.random() < 0.5 and g['tz'] is None:     # (a DataFrame drops the zone of its dates: usable on naive grids only)
             a['_orders_as_df'] = True
+    for a in spec['assets']:
+        if a['type'] in ('Plant', 'CHPAsset') and rng.random() < 0.4:
+            a['freq'] = g['freq']           # a plant may state the frequency it is meant for (it must equal the grid's, compared as text)
     for t in gen.asset_types(spec):
         case.feature('type:' + t)
     own_grid = rng.random() < 0.6
